@@ -810,6 +810,14 @@ def emit_lean(a):
         L.append(f"/-- ids of ResetPolicy.{key} (same order; checked by `policy_ids_ok`) -/\ndef {key}Ids : List Nat := {nat_list([idx[n] for n in nm if n in idx])}\n")
     L.append(f"/-- members covered by a `finding: property=C07 key=…` line of known_findings.txt (keys: {sorted(a['keys'])}) -/\n"
              f"def knownUnreset : List Nat := {nat_list(ids(a['known']))}\n")
+    dm = 0
+    expl = set(a["known"])
+    for key in ("healed", "scratch", "fileNames"):
+        expl |= {n for n, _ in a["pol"][key]}
+    for n in a["names"]:
+        if n in expl or n.split(".")[0] in expl:
+            dm |= 1 << idx[n]
+    L.append(f"/-- bit i set iff member i, or its parent member, is in scratchIds/healedIds/fileNamesIds/knownUnreset (checked by `dead_mask_ok`) -/\ndef deadMask : Nat := {dm}\n")
     L.append(f"def unknownResetCallees : List String := {str_list(a['unknown'])}\n")
     L.append(f"def translatorErrors : List String := {str_list(a['errors'])}\n")
     # io flags
